@@ -59,7 +59,24 @@ pub fn format_program(program: &Program, source: &str) -> String {
     if !trivia.dangling.is_empty() {
         docs.push(trivia_doc(&trivia.dangling));
     }
-    let doc = pretty::join(pretty::hardline(), docs);
+    // One statement per line. A bare newline is not always a separator, though: white space may sit
+    // between a tuple name and the `(` of a partial type, so after a type alias that ends in a tuple
+    // name (`'t = Foo`) a statement starting with `(` would be read as part of the alias — there the
+    // comma (a synonym of the newline) is kept.
+    let mut parts = Vec::new();
+    let mut prev_ends_in_tuple_name = false;
+    for (index, doc) in docs.into_iter().enumerate() {
+        if index > 0 {
+            if prev_ends_in_tuple_name && first_text(&doc).is_some_and(|text| text.starts_with('('))
+            {
+                parts.push(pretty::text(","));
+            }
+            parts.push(pretty::hardline());
+        }
+        prev_ends_in_tuple_name = last_text(&doc).is_some_and(ends_with_tuple_name);
+        parts.push(doc);
+    }
+    let doc = pretty::concat(parts);
     let text = collapse_blanks(&pretty::print(&doc, WIDTH));
     expand_literals(&text, &trivia.literals.borrow())
 }
